@@ -240,6 +240,7 @@ func Run(opt Options, body func()) *Exec {
 		}
 	}
 	cur = nil
+	passNow = e.now // code that runs after the execution (scrapes in oracles) sees the clock where it stopped
 	restoreRand()
 	for _, b := range e.BlockedOps {
 		e.Blocked = append(e.Blocked, fmt.Sprintf("%s %s@%s", b.Thread, b.Kind, b.Site))
